@@ -111,7 +111,8 @@ Definition check_matrix (c : cls) (insts : list (list nat)) (seen_eq : list (nat
            (seen_lab : list nat) : bool :=
   Nat.eqb (length seen_lab) (length insts)
   && forallb (fun vs => Nat.eqb (length vs) (length (flds c))) insts
-  && list_eqb pair_eqb (pred_eq c insts) seen_eq
+  && list_eqb pair_eqb (if eqgen c then pred_eq c insts
+                        else map (fun i => (i, i)) (seq 0 (length insts))) seen_eq
   && respects (combine (map (fcompute c) insts) seen_lab)
   && (if hash_within_eq c
       then forallb (fun p => Nat.eqb (nth (fst p) seen_lab 0) (nth (snd p) seen_lab 1)) seen_eq
@@ -155,7 +156,8 @@ Inductive mview :=
 Definition model_of (k : case) : mview :=
   match k with
   | CA c _ => VA (outcome_of c) (decide c)
-  | CM c insts _ _ => VM (pred_eq c insts) (map (fcompute c) insts)
+  | CM c insts _ _ => VM (if eqgen c then pred_eq c insts else map (fun i => (i, i)) (seq 0 (length insts)))
+                         (map (fcompute c) insts)
   | CH c start ops _ => VH (frun c start ops) (hashed_idx 0 (flds c)) (keyed_idx 0 (flds c))
   end.
 
